@@ -112,7 +112,15 @@ def check_case(case, ctx):
         if case.get('reuse_sim'):
             # the simulator object was used before with another assignment (as in pattern batches): nothing may carry over
             r0 = random.Random(case['vseed'] ^ 0x77)
-            sim.s[0] = to_bp(np.array([[r0.randrange(4 if m == 4 else 8) for _ in range(n)] for _ in b.s_order], dtype=np.uint8), 3)
+            # ... also when the earlier assignment agrees with the new one in some of the bit planes (only the others differ)
+            keep = r0.choice([0, 0, 1, 2, 4, 3, 5, 6])
+            prev = np.array([[r0.randrange(4 if m == 4 else 8) for _ in range(n)] for _ in b.s_order], dtype=np.uint8)
+            cur = np.array(rows, dtype=np.uint8)
+            prev = (prev & ~np.uint8(keep)) | (cur & np.uint8(keep))
+            if m == 4:
+                prev &= 3
+            ctx.count(f'reused_simulator_planes_kept/{keep}')
+            sim.s[0] = to_bp(prev, 3)
             sim.s_to_c()
             sim.c_prop()
             sim.c_to_s()
